@@ -634,13 +634,17 @@ impl G1Projective {
         } else {
             scalars.len()
         };
+        // The empty sum is the identity (blst's Pippenger indexes its first point).
+        if n == 0 {
+            return Self::identity();
+        }
         let points =
-            unsafe { std::slice::from_raw_parts(points.as_ptr() as *const blst_p1, points.len()) };
+            unsafe { std::slice::from_raw_parts(points.as_ptr() as *const blst_p1, n) };
 
         let points = p1_affines::from(points);
 
         let mut scalar_bytes: Vec<u8> = Vec::with_capacity(n * 32);
-        for a in scalars.iter().map(|s| s.to_bytes_le()) {
+        for a in scalars[..n].iter().map(|s| s.to_bytes_le()) {
             scalar_bytes.extend_from_slice(&a);
         }
 
@@ -721,6 +725,10 @@ impl Curve for G1Projective {
     /// function will panic if `p.len() != q.len()`.
     fn batch_normalize(p: &[Self], q: &mut [Self::AffineRepr]) {
         assert_eq!(p.len(), q.len());
+        // blst's conversion indexes its first point.
+        if p.is_empty() {
+            return;
+        }
         let points = unsafe { std::slice::from_raw_parts(p.as_ptr() as *const blst_p1, p.len()) };
 
         p1_affines::from(points)
